@@ -28,7 +28,7 @@ def run(seed):
     shutil.rmtree(vd,ignore_errors=True)
     return seed,res
 out={}
-with cf.ThreadPoolExecutor(max_workers=5) as ex:
+with cf.ThreadPoolExecutor(max_workers=int(os.environ.get('WORKERS','5'))) as ex:
     for seed,res in ex.map(run,seeds):
         out[seed]=res
         if 'error' in res: print(seed,'ERROR',res['error']); continue
